@@ -361,7 +361,7 @@ func TestVerifC06Pick(t *testing.T) {
 	}
 	res.Bounds = map[string]any{"max_cpus_with_every_free_subset": maxCPUs, "max_cpus_with_full_occupant_and_sharing_product": fullMax,
 		"reduced_product_above_that": "occupants {pods without exclusive policy, mixed}, sharing {limit 1, limit 2 with even-position free CPUs held once}",
-		"topologies": names, "ledger_situations_x_n": total}
+		"topologies":                 names, "ledger_situations_x_n": total}
 	env.Emit(res)
 	// the ledger must not have been changed by Allocate (it only computes); covered by part (b) state invariants.
 }
